@@ -426,7 +426,8 @@ pub fn run(ctx: &Ctx, shard: &mut Shard) {
         shard.nontrivial.insert(hh);
         match run_case(&c, &path, &mut st) {
             Ok(()) => {}
-            Err((sig, d)) if sig == "live:setup" => shard.inconclusive(d),
+            // (a set-up step that fails is the database failing on a valid call: reported, see DESIGN section 10)
+            Err((sig, d)) if sig == "live:setup" => shard.violation(ctx, "workload:live:a-valid-call-failed", &d, &serde_json::json!({"kind": "live", "live": c})),
             Err((sig, d)) => shard.violation(ctx, &sig, &d, &serde_json::json!({"kind": "live", "live": c})),
         }
     }
@@ -434,7 +435,7 @@ pub fn run(ctx: &Ctx, shard: &mut Shard) {
         shard.evaluations += 1;
         match huge_leaf_case(&path, &mut st) {
             Ok(()) => {}
-            Err((sig, d)) if sig == "live:setup" => shard.inconclusive(d),
+            Err((sig, d)) if sig == "live:setup" => shard.violation(ctx, "workload:live:a-valid-call-failed", &d, &serde_json::json!({"kind": "live-huge-leaf"})),
             Err((sig, d)) => shard.violation(ctx, &sig, &d, &serde_json::json!({"kind": "live-huge-leaf"})),
         }
     }
